@@ -141,9 +141,23 @@ pub fn factory_step(op: &str, mode: &str, limit: usize, queue: &[(u64, bool)], i
 /// the given draining flag; the factory backlog holds `fq` jobs (msg ids 50..). The worker actor logs what it really handles.
 /// Returns "inpool=0|1;wqueue=ids;fqueue=ids;handled=ids;discards=..;routed=ids;worker_alive=0|1".
 pub async fn factory_finished(queue: &[u64], draining: bool, fq: usize) -> String {
+    factory_finished_on(queue, draining, fq, false).await
+}
+
+/// `closed`: the worker actor has already stopped (its mailbox refuses the hand-over) but the factory has not been told yet
+pub async fn factory_finished_on(queue: &[u64], draining: bool, fq: usize, closed: bool) -> String {
     use crate::factory::worker::verif_probe as wp;
     let (w, got, wrec) = wp::record_logging(queue, &[5], draining).await;
     let worker_actor = w.actor.clone();
+    if closed {
+        worker_actor.stop(None);
+        for _ in 0..200 {
+            if worker_actor.get_status() == crate::ActorStatus::Stopped {
+                break;
+            }
+            crate::concurrency::sleep(Duration::from_millis(2)).await;
+        }
+    }
     let routed = Arc::new(Mutex::new(Vec::new()));
     let rec = Arc::new(Recorder(Mutex::new(Vec::new())));
     let mut q = DefaultQueue::<u64, u64>::default();
